@@ -29,7 +29,10 @@ type schedOp struct {
 	Topic int    `json:"topic,omitempty"`
 }
 
+// Sticky: when the explicit schedule is exhausted keep running the same thread until it finishes or
+// blocks, then the lowest unfinished one (instead of round robin) — used by the systematic enumeration.
 type schedPhase struct {
+	Sticky   bool       `json:"sticky,omitempty"`
 	Restart  bool       `json:"restart,omitempty"` // close + reopen the transport before this phase
 	Pre      []schedOp  `json:"pre,omitempty"`     // run sequentially first (history, registrations)
 	Subs     []schedSub `json:"subs,omitempty"`    // subscribers created for this phase (indices continue)
@@ -52,6 +55,7 @@ type opTrace struct {
 }
 
 type schedRun struct {
+	executed []int // thread of every executed (non-blocked) step of the last phase
 	traces []opTrace
 	cs     schedCase
 	dir    string
@@ -253,7 +257,15 @@ func (sr *schedRun) trClosedProbe() error {
 }
 
 func runSchedCase(c *h.Ctx, r *h.Report, cs schedCase) (disagreed bool) {
+	_, d := runSchedCaseT(c, r, cs)
+
+	return d
+}
+
+// runSchedCaseT also returns the executed trace (thread per non-blocked step) of the last phase.
+func runSchedCaseT(c *h.Ctx, r *h.Report, cs schedCase) (trace []int, disagreed bool) {
 	sr := &schedRun{cs: cs}
+	defer func() { trace = sr.executed }()
 	if cs.Kind == "bolt" {
 		sr.dir = scratchDir()
 		defer os.RemoveAll(sr.dir)
@@ -339,6 +351,8 @@ func runSchedCase(c *h.Ctx, r *h.Report, cs schedCase) (disagreed bool) {
 		sr.emit("sys.labels", strings.Join(ls, " "))
 		sched := append([]int(nil), ph.Schedule...)
 		blockedSet := map[int]bool{}
+		lastPick := 0
+		sr.executed = nil
 		for k := 0; ; k++ {
 			all := true
 			for i := range done {
@@ -350,12 +364,24 @@ func runSchedCase(c *h.Ctx, r *h.Report, cs schedCase) (disagreed bool) {
 			var i int
 			if k < len(sched) {
 				i = sched[k] % n
+			} else if ph.Sticky {
+				i = lastPick
+				if done[i] || blockedSet[i] {
+					for j := 0; j < n; j++ {
+						if !done[j] && !blockedSet[j] {
+							i = j
+
+							break
+						}
+					}
+				}
 			} else {
 				i = k % n
 			}
 			if done[i] {
 				continue
 			}
+			lastPick = i
 			ev := sc.Step(i)
 			steps++
 			if !ev.Blocked && sr.traces[tbase+i].first < 0 {
@@ -371,6 +397,7 @@ func runSchedCase(c *h.Ctx, r *h.Report, cs schedCase) (disagreed bool) {
 				blockedSet[i] = true
 			} else {
 				blockedSet = map[int]bool{}
+				sr.executed = append(sr.executed, i)
 			}
 			pn := "-"
 			if ev.Panic != "" {
@@ -460,7 +487,74 @@ func runSchedCase(c *h.Ctx, r *h.Report, cs schedCase) (disagreed bool) {
 	}
 	r.Count(fmt.Sprintf("steps:%d-%d", steps/20*20, steps/20*20+19))
 
-	return disagreed
+	return sr.executed, disagreed
+}
+
+// enumerateSchedules: systematic exploration of every schedule of a small configuration with at most
+// `bound` preemptions (a preemption = switching away from a thread that could continue).
+func enumerateSchedules(c *h.Ctx, r *h.Report, base schedCase, bound int) int {
+	last := len(base.Phases) - 1
+	n := len(base.Phases[last].Ops)
+	seen := map[string]bool{}
+	count := 0
+	var explore func(prefix []int, from, left int)
+	explore = func(prefix []int, from, left int) {
+		cs := base
+		cs.Phases = append([]schedPhase(nil), base.Phases...)
+		ph := cs.Phases[last]
+		ph.Sticky = true
+		ph.Schedule = append([]int(nil), prefix...)
+		cs.Phases[last] = ph
+		trace, _ := runSchedCaseT(c, r, cs)
+		key := fmt.Sprint(trace)
+		if seen[key] {
+			return
+		}
+		seen[key] = true
+		count++
+		r.Nontrivial(fmt.Sprint(cs.Kind, cs.Cap, cs.Size, trace))
+		if left == 0 {
+			return
+		}
+		for p := from; p < len(trace); p++ {
+			for t := 0; t < n; t++ {
+				if t == trace[p] {
+					continue
+				}
+				np := append(append([]int(nil), trace[:p]...), t)
+				explore(np, p+1, left-1)
+			}
+		}
+	}
+	explore(nil, 0, bound)
+
+	return count
+}
+
+// smallConfigs: the configurations enumerated systematically in the thorough tier.
+func smallConfigs() []schedCase {
+	d := func(id int) schedOp { return schedOp{Op: "dispatch", ID: id, Topic: 0} }
+	var out []schedCase
+	for _, kind := range []string{"bolt", "local"} {
+		for _, capacity := range []int{1, 1000} {
+			req := "1"
+			if kind == "local" {
+				req = "-"
+			}
+			out = append(out,
+				schedCase{Kind: kind, Cap: capacity, Phases: []schedPhase{{Pre: []schedOp{d(1)}, Subs: []schedSub{{Topics: []int{0}, Req: req}}, Ops: []schedOp{{Op: "add", Sub: 0}, d(2)}}}},
+				schedCase{Kind: kind, Cap: capacity, Phases: []schedPhase{{Pre: []schedOp{d(1)}, Subs: []schedSub{{Topics: []int{0}, Req: req}}, Ops: []schedOp{{Op: "add", Sub: 0}, d(2), {Op: "close"}}}}},
+				schedCase{Kind: kind, Cap: capacity, Phases: []schedPhase{{Subs: []schedSub{{Topics: []int{0}, Req: "-"}}, Pre: []schedOp{{Op: "add", Sub: 0}}, Ops: []schedOp{{Op: "disconnect", Sub: 0}, {Op: "close"}, d(1)}}}},
+				schedCase{Kind: kind, Cap: capacity, Phases: []schedPhase{{Subs: []schedSub{{Topics: []int{0}, Req: "-"}}, Pre: []schedOp{{Op: "add", Sub: 0}}, Ops: []schedOp{d(1), d(2), {Op: "recv", Sub: 0}}}}},
+			)
+		}
+	}
+	// after a restart
+	out = append(out, schedCase{Kind: "bolt", Cap: 1000, Phases: []schedPhase{
+		{Pre: []schedOp{d(1), d(2)}, Ops: []schedOp{{Op: "list"}}, Schedule: []int{0}},
+		{Restart: true, Subs: []schedSub{{Topics: []int{0}, Req: "2"}}, Ops: []schedOp{{Op: "add", Sub: 0}, d(3)}}}})
+
+	return out
 }
 
 // genJunctionCase targets the replay/live junction: a reconnecting subscriber (Last-Event-ID =
@@ -617,7 +711,7 @@ func genSchedCase(rr *h.Rand) schedCase {
 }
 
 func runSched(c *h.Ctx, r *h.Report) {
-	r.Rule = "controlled schedules at the granularity of synchronisation operations: /repo's bolt.go, local.go and localsubscriber.go are rewritten (go/ast, into a build overlay) so that every lock acquisition, atomic access, channel operation, close, Once.Do, bbolt transaction and subscriber-list call first yields to a cooperative scheduler; exactly one goroutine runs at a time, following a generated schedule (bursts with few preemptions, then round robin). 2-4 concurrent operations from {Dispatch, AddSubscriber (with/without Last-Event-ID), RemoveSubscriber, Close, GetSubscribers, subscriber Disconnect, consumer receive} on both transports, after a sequential prelude (history, registrations, optional restart), channel capacity in {1,2,3,1000}, retention in {0..3}. The Lean model runs as an acceptor: for every step it must predict the next synchronisation label, whether the thread was blocked, the return value, and at the end the whole observable state. Oracles on the implementation alone: no panic, no deadlock. Non-trivial = schedule with at least one preemption inside an operation; distinct by content."
+	r.Rule = "controlled schedules at the granularity of synchronisation operations: /repo's bolt.go, local.go and localsubscriber.go are rewritten (go/ast, into a build overlay) so that every lock acquisition, atomic access, channel operation, close, Once.Do, bbolt transaction and subscriber-list call first yields to a cooperative scheduler; exactly one goroutine runs at a time, following a generated schedule (bursts with few preemptions, then round robin; thorough tier: additionally EVERY schedule with at most 2 preemptions of 17 small configurations, enumerated systematically). 2-4 concurrent operations from {Dispatch, AddSubscriber (with/without Last-Event-ID), RemoveSubscriber, Close, GetSubscribers, subscriber Disconnect, consumer receive} on both transports, after a sequential prelude (history, registrations, optional restart), channel capacity in {1,2,3,1000}, retention in {0..3}. The Lean model runs as an acceptor: for every step it must predict the next synchronisation label, whether the thread was blocked, the return value, and at the end the whole observable state. Oracles on the implementation alone: no panic, no deadlock. Non-trivial = schedule with at least one preemption inside an operation; distinct by content."
 	if c.Replay != "" {
 		var rp struct {
 			Case schedCase `json:"case"`
@@ -626,6 +720,13 @@ func runSched(c *h.Ctx, r *h.Report) {
 		runSchedCase(c, r, rp.Case)
 
 		return
+	}
+	if c.Thorough() {
+		total := 0
+		for _, cfg := range smallConfigs() {
+			total += enumerateSchedules(c, r, cfg, 2)
+		}
+		r.CountN("systematic:schedules-with-at-most-2-preemptions", total)
 	}
 	n := c.Scale(300, 20000)
 	for i := 0; i < n; i++ {
